@@ -1,1 +1,12 @@
 import SwcVerif.Props.C02
+#print axioms C02.exit_flag_pinned
+#print axioms C02.consts_pinned
+#print axioms C02.read_ok_iff
+#print axioms C02.read_row_count
+#print axioms C02.read_never_partial
+#print axioms C02.swallow_truncates
+#print axioms C02.blank_and_comment_skipped
+#print axioms C02.data_line_fields
+#print axioms C02.natOf_append
+#print axioms C02.float_token_value
+#print axioms C02.too_few_fields_invalid
